@@ -149,6 +149,13 @@ def std_transfer(I, fr, t, c, pth):
         if isinstance(v, (Int, BV)):
             fr.storev(dest, Opt('none', v))        # Ok(v): widening or same-width unsigned conversion
             return True
+    if name == 'try_from' and trait == 'std::convert::TryFrom' and len(args) == 1 and c.get('self_ty') in ('u8', 'u16', 'u32', 'u64', 'usize', 'i64', 'i32'):
+        v = fr.operand(args[0])
+        src_ty = (c.get('targs') or [None, None])[-1]
+        if isinstance(v, Int) and src_ty in ('u8', 'u16', 'u32', 'u64', 'usize', 'u128'):
+            bits = {'u8': 8, 'u16': 16, 'u32': 32, 'u64': 64, 'usize': 64, 'i64': 63, 'i32': 31}[c['self_ty']]
+            fr.storev(dest, Opt('none', Int(v.v, 64)) if 0 <= v.v < (1 << bits) else Opt('some', TOP))
+            return True
 
     if name == 'partition_point' and 'slice' in res and len(args) == 2:
         v = fr.deref_operand(args[0])
